@@ -16,27 +16,31 @@ VARIABLES objs,      \* sequence of objects (1 or 2)
 Addrs(o) == {0, 1, o.len - 1, o.len, AddrSpace(o) - 1} \cap 0 .. (AddrSpace(o) - 1)
 Vals == {90, 199, 0}
 
-Init == objs = <<New(Kind, Len0)>> /\ last = [op |-> "new", id |-> 1, a |-> 0, v |-> 0, ret |-> 0] /\ n = 0
+Init == objs = <<New(Kind, Len0)>> /\ last = [op |-> "new", id |-> 1, a |-> 0, v |-> 0, ret |-> 0, d |-> <<>>] /\ n = 0
 
 DoSet(i, a, v) == /\ objs' = [objs EXCEPT ![i] = Write(@, a, v)]
-                  /\ last' = [op |-> "set", id |-> i, a |-> a, v |-> v, ret |-> 0]
+                  /\ last' = [op |-> "set", id |-> i, a |-> a, v |-> v, ret |-> 0, d |-> <<>>]
 DoGet(i, a) == /\ UNCHANGED objs
-               /\ last' = [op |-> "get", id |-> i, a |-> a, v |-> 0, ret |-> Read(objs[i], a)]
+               /\ last' = [op |-> "get", id |-> i, a |-> a, v |-> 0, ret |-> Read(objs[i], a), d |-> <<>>]
 DoPut(i, a, d) == /\ PutOK(objs[i], a, d) /\ objs[i].kind # "dumbio"
                   /\ objs' = [objs EXCEPT ![i] = Put(@, a, d)]
-                  /\ last' = [op |-> "put", id |-> i, a |-> a, v |-> Len(d), ret |-> 0]
+                  /\ last' = [op |-> "put", id |-> i, a |-> a, v |-> Len(d), ret |-> 0, d |-> d]
 DoClone(i) == /\ Len(objs) = 1 /\ objs[i].kind = "mapmem"
               /\ objs' = Append(objs, objs[i])
-              /\ last' = [op |-> "clone", id |-> i, a |-> 0, v |-> 0, ret |-> 0]
+              /\ last' = [op |-> "clone", id |-> i, a |-> 0, v |-> 0, ret |-> 0, d |-> <<>>]
+DoEqual(i, j) == /\ objs[i].kind = "mapmem" /\ UNCHANGED objs
+                 /\ last' = [op |-> "equal", id |-> i, a |-> j, v |-> 0, d |-> <<>>,
+                              ret |-> LET s == EqualAllowed(objs[i], objs[j])
+                                      IN IF s = {TRUE} THEN 1 ELSE IF s = {FALSE} THEN 0 ELSE 2]
 DoClear(i) == /\ objs[i].kind = "mapmem" /\ objs' = [objs EXCEPT ![i] = Clear(@)]
-              /\ last' = [op |-> "clear", id |-> i, a |-> 0, v |-> 0, ret |-> 0]
+              /\ last' = [op |-> "clear", id |-> i, a |-> 0, v |-> 0, ret |-> 0, d |-> <<>>]
 
 Next == /\ n < MaxOps /\ n' = n + 1
         /\ \E i \in 1 .. Len(objs) :
              \/ \E a \in Addrs(objs[i]), v \in Vals : DoSet(i, a, v)
              \/ \E a \in Addrs(objs[i]) : DoGet(i, a)
              \/ \E a \in Addrs(objs[i]), d \in {<<90>>, <<90, 7>>, <<1, 2, 3>>} : DoPut(i, a, d)
-             \/ DoClone(i) \/ DoClear(i)
+             \/ DoClone(i) \/ DoClear(i) \/ \E j \in 1 .. Len(objs) : DoEqual(i, j)
 Spec == Init /\ [][Next]_<<objs, last, n>>
 
 \* read-your-write / writes beyond the slice are ignored / default elsewhere
